@@ -1,7 +1,7 @@
 (* C05 — Data directives emit exactly the bytes they specify. *)
 From V Require Import Base.
 From V.model Require Import MText MValues MOperands MProgram.
-From V.proofs Require Import PRender PC05 PC05list.
+From V.proofs Require Import PRender PC05 PC05list PC05line PC18.
 From V.gen Require Tables.
 From Coq Require String.
 Import String.StringSyntax.
@@ -33,6 +33,19 @@ Theorem C05_fcc_emits_its_characters :
               cp_size p = N.of_nat (length str).
 Proof. exact fcc_emits_its_characters. Qed.
 Print Assumptions C05_fcc_emits_its_characters.
+
+(* (a') the two halves joined, from the SOURCE LINE to the bytes with no hypothesis about the table row: the row the line
+   scanner finds for FCC in the REGENERATED table is the FCC row (re-checked by computation on every build), so the
+   statement the FCC line parses to emits exactly the characters of the string and reserves exactly that many bytes *)
+Theorem C05_fcc_line_emits_its_characters :
+  forall d str tail,
+    is_space d = false -> ~ In d str -> Forall (fun c => c < 256) str -> mem_c 10 (removelast (fcc_line d str tail)) = false ->
+    exists st p, parse_line (fcc_line d str tail) = Ok (Some st) /\ s_label st = [] /\
+      translate_operand (s_operand st) (s_instr st) = Ok p /\
+      emit_value (cp_op p) = Ok [] /\ emit_value (cp_post p) = Ok [] /\ emit_value (cp_add p) = Ok str /\
+      cp_size p = N.of_nat (length str).
+Proof. exact fcc_line_emits_its_characters. Qed.
+Print Assumptions C05_fcc_line_emits_its_characters.
 
 (* (b) RMB n reserves exactly n zero bytes *)
 Theorem C05_rmb_emits_zeros :
@@ -115,6 +128,33 @@ Proof.
 Qed.
 Print Assumptions C05_list_value_out_of_range_rejected.
 
+(* (c'') value lists from the SOURCE LINE: a statement line in any layout (label or none, any white space, any letter case
+   of the mnemonic, any trailing text or comment - well_formed_fields) whose mnemonic is FCB / FDB and whose operand
+   field is p1,...,pk parses to a statement (with the line's label) that emits one byte / two bytes high byte first
+   per listed value, in order, and reserves exactly that many bytes *)
+Theorem C05_fcb_list_line_emits_its_values :
+  forall f parts ns,
+    well_formed_fields f -> upper_t (lf_mn f) = FCB_t -> lf_ops f = join 44 parts ->
+    (2 <= length parts)%nat -> Forall2 elem_ok parts ns -> Forall (fun n => (-128 <= num_number n <= 255)%Z) ns ->
+    exists st p, parse_line (line_of f) = Ok (Some st) /\ s_label st = lf_label f /\
+      translate_operand (s_operand st) (s_instr st) = Ok p /\
+      cp_size p = N.of_nat (length ns) /\ emit_value (cp_op p) = Ok [] /\ emit_value (cp_post p) = Ok [] /\
+      emit_value (cp_add p) = Ok (map (fun n => Z.to_N (num_number n mod 256)) ns).
+Proof. exact fcb_list_line_emits_its_values. Qed.
+Print Assumptions C05_fcb_list_line_emits_its_values.
+
+Theorem C05_fdb_list_line_emits_its_values :
+  forall f parts ns,
+    well_formed_fields f -> upper_t (lf_mn f) = FDB_t -> lf_ops f = join 44 parts ->
+    (2 <= length parts)%nat -> Forall2 elem_ok parts ns -> Forall (fun n => (-32768 <= num_number n <= 65535)%Z) ns ->
+    exists st p, parse_line (line_of f) = Ok (Some st) /\ s_label st = lf_label f /\
+      translate_operand (s_operand st) (s_instr st) = Ok p /\
+      cp_size p = N.of_nat (2 * length ns) /\ emit_value (cp_op p) = Ok [] /\ emit_value (cp_post p) = Ok [] /\
+      emit_value (cp_add p) =
+        Ok (flat_map (fun n => [Z.to_N ((num_number n mod 65536) / 256); Z.to_N (num_number n mod 256)]) ns).
+Proof. exact fdb_list_line_emits_its_values. Qed.
+Print Assumptions C05_fdb_list_line_emits_its_values.
+
 (* (d) EQU, ORG, SETDP, NAM, END, INCLUDE (every pseudo operation other than FCB/FDB/RMB/FCC) emit nothing *)
 Theorem C05_other_directives_emit_nothing :
   forall i s v p,
@@ -155,4 +195,16 @@ Proof.
   - repeat (apply Forall2_cons; [split; [discriminate|]; split; [vm_compute; intuition discriminate | vm_compute; reflexivity]|]).
     apply Forall2_nil.
   - vm_compute. reflexivity.
+Qed.
+
+(* the hypotheses of (c'') are met by a labelled, lower-case, commented line *)
+Example C05_list_line_nonvacuous :
+  let f := {| lf_label := t "TAB"; lf_sp1 := t "  "; lf_mn := t "fcb"; lf_sp2 := t " "; lf_ops := t "1,-1,$7F";
+              lf_rest := t " ; table
+" |} in
+  well_formed_fields f /\ upper_t (lf_mn f) = FCB_t /\ lf_ops f = join 44 [t "1"; t "-1"; t "$7F"].
+Proof.
+  cbv zeta. split; [|split; vm_compute; reflexivity].
+  unfold well_formed_fields. repeat split; try (vm_compute; reflexivity); try discriminate.
+  right. eexists. eexists. split; [vm_compute; reflexivity|]. split; [vm_compute; reflexivity | discriminate].
 Qed.
